@@ -26,6 +26,7 @@ RULE = ("Offer kind file/directory with the offered name from a grammar of hosti
         "replaced only if --output-file names it or the existing directory containing it; an existing directory "
         "survives with its contents; success => dest exists. Non-trivial = hostile name/member, or a "
         "pre-existing object at/near the destination. Distinct = (features, canonical case).")
+RULE += (' Added later: archive members that escape below a top-level entry used by an earlier member (sub/../../<sibling>).')
 ASSUMPTIONS = ["real filesystem under /verif/scratch, removed after each case", "permissions/mtimes are not compared",
                "symlinks pre-planted by the local user are out of scope", "the check runs as root (mode-0 members do "
                "not block later extraction)"]
